@@ -99,7 +99,7 @@ PROPS["C05"] = {
         "the cursor and sizes passed at run time are those of the layout (compiler half of C05, not covered)",
     ],
     "not_covered": [
-        "compiler half, the part that is NOT under contract: that the recursive generator (eval_expr and its ~40 arms) threads the returned cell lists in evaluation order (the induction hypothesis of unit mirgen_state is assumed for eval_expr / eval_args), the composition of the `match` bookkeeping pieces inside eval_union_match / eval_match / compile_decision_tree (the 15 pieces themselves -- arm start, arm end, padding, for arms and default arm of all three -- are under contract by rule X5; that the surrounding closures call them in this order for every arm is read off and replayed by `ffi_replay branch-state`), the copy of the returned list into Function::state_skeleton; of the two back-end translators only the arms of the six state instructions are under contract (unit backend_state), not the dispatch around them (that each MIR instruction reaches its arm, block order, jumps) nor the import-index table of wasmgen (that `rt.state_push` is the index of the import named state_push)",
+        "compiler half, the part that is NOT under contract: the induction hypothesis of unit mirgen_state is assumed for the recursive calls of eval_expr and for eval_args as a whole (its per-argument closure eval_arg_one is proved, the map / collect / flat_map around it is not); of eval_expr's arms the ones under contract are Feed, Then, If, Let, LetRec, Assign, ArrayAccess (+ eval_block, eval_assign, the mem / delay carriers, emit_fncall and the match pieces) -- Apply (380 lines), Lambda, Proj, FieldAccess, ArrayLiteral, the aggregate allocators and Match's dispatch are not; the threading arms are proved for the SUM half of the invariant only (no cell lost, none counted twice): that `[a, b].concat()` lists the cells in EVALUATION order is not expressible through the branch-merging `if` / `match` arms and stays with the layout replay; the composition of the `match` bookkeeping pieces inside eval_union_match / eval_match / compile_decision_tree (the 15 pieces themselves -- arm start, arm end, padding, for arms and default arm of all three -- are under contract by rule X5; that the surrounding closures call them in this order for every arm is read off and replayed by `ffi_replay branch-state`), the copy of the returned list into Function::state_skeleton; of the two back-end translators only the arms of the six state instructions are under contract (unit backend_state), not the dispatch around them (that each MIR instruction reaches its arm, block order, jumps) nor the import-index table of wasmgen (that `rt.state_push` is the index of the import named state_push)",
         "state_get_host / state_set_host (copy through wasmtime linear memory)",
     ],
     "explanation": "C05 back-end translation (unit backend_state): each of the six MIR state instructions becomes the VM instruction / the host call with exactly its operand (offset, cell size = word size of the type, delay length), the VM Delay instruction names the delay-table entry that holds its own length (idx == old table length, table == old.push(max)), the feed cell is written with the size of the return type, and every WASM exchange buffer comes from the one static allocator (starts at the old alloc_offset, allocator advanced by max(size,1)*8: no overlap -- finding F14). C05 compile-time half (unit mirgen_state): generator invariant `cursor reached by the emitted code == push_sum` and `push_sum + pending move == total size of the cells returned so far`; every carrier that creates a cell keeps it AND emits the cell's instruction at exactly the cursor the returned layout (prefix sums in list order) assigns to that cell's own entry: emit_fncall (call of a stateful function: the callee's whole layout is one cell), the delay arm (arguments' cells first, then the delay), the mem arm, the Feed arm (`self`: read before the body, so its entry comes first -- finding F7, repaired); the If arm generates both branches from the same bookkeeping and merges them at a common cursor (finding F8, repaired); the three match implementations generate every arm from the cursor at the match moved past the cells of the earlier arms, flush the arm's pending move inside the arm and pad every arm to the end of all arms' cells (findings F9-F11, repaired; 15 extracted pieces, one shared contract per kind of piece); consume_and_insert_pushoffset emits the pending move exactly once; the function epilogue pops exactly push_sum, i.e. the cursor is back at the origin. C05 run-time half: (i) layout arithmetic (total_size, path_to_address = prefix sums, children tile the parent: lemma_addr_in_bounds, lemma_node_push) proved in Verus; (ii) each run-time primitive touches exactly the words of the cell at the cursor (Kani, bit-precise; for the WASM host functions additionally proved in Verus for a storage of ANY length: unit wasm_state -- cursor moves change only the cursor, mem swaps exactly the word at the cursor, delay performs exactly the one-step ring-buffer function on the cell's 2+len words, refused lengths change nothing, no lazy growth inside a layout-sized storage); (iii) VM and WASM host primitives perform the same transformation of the flat words (Kani relational harnesses); (iii') the VM instruction arms themselves (cut from Machine::execute) touch exactly their destination registers and the cell at the cursor, and the Mem / Delay arms agree bit for bit with the WASM host functions; (iv) k-step delay history lemma over the one-step spec (Verus unit delay_history: feeding x0,x1,.. and reading with delay d in [1,len-1] returns x[k-d], 0 before that).",
